@@ -6,6 +6,7 @@
 -/
 import DnsModel.Lemmas.StepsBound
 import DnsModel.Tie.Name
+import DnsModel.Tie.Parse
 namespace Dns.C18
 open Dns Cnt Sector Res
 
@@ -96,6 +97,11 @@ theorem source_walkers (p : Bytes) (off : Nat) :
     (checkUncompressedNameI p off).steps ≤ DNS_MAX_HOSTNAME_INDIRECTIONS + DNS_MAX_HOSTNAME_LEN + 2 :=
   ⟨by rw [Tie.check_compressed_name_eq]; exact checkCompressedNameI_res p off, checkCompressedNameI_steps p off,
    by rw [Tie.check_uncompressed_name_eq]; exact checkUncompressedNameI_res p off, checkUncompressedNameI_steps p off⟩
+
+/-- the counted validator computes what the validator translated from the current source computes -/
+theorem source_erasure (p : Bytes) :
+    ((parseI p).res >>= fun v => Res.ok (Tie.viewTup p v)) = Tr.Sector.parse p 0 none none 0 none none none 512 := by
+  rw [Tie.parse_eq, erasure]
 
 end Dns.C18
 
